@@ -7,6 +7,7 @@ MAX_RETRIES = 3  # "at most three consecutive automatic retry redirects"
 
 def monitor_chains(ctx, infile, implfile):
     sigs = set()
+    cause_sigs = set()
     with open(infile) as fi, open(implfile) as fo:
         for li, lo in zip(fi, fo):
             if not li.startswith("cscript "):
@@ -45,17 +46,46 @@ def monitor_chains(ctx, infile, implfile):
                     paths = [p for (_, _, _, p) in sc.cfg.ingress_parts()]
                     # the request path under which the loop runs is not inside the ingress path the cookie was scoped to
                     odd = [p for p in paths if p and not (it["path"] == p or it["path"].startswith(p + "/")) and it["path"].startswith(p)]
-                    if odd:
+                    # ... and the browser does hold a counter cookie (some URL of the site gets it), only not for the retried URL
+                    # ... and the browser does hold a counter cookie (some URL of the site gets it), only not for every URL of this
+                    # origin (a cookie it returns to "/" is returned to the retried URL as well)
+                    rn = sc.cfg.name("retry")
+                    holds_counter = any(name == rn for (_, cs) in r["probes"] for (name, _) in cs)
+                    at_root = any(name == rn for (pr, cs) in r["probes"] if pr == (sc.https, sc.host, "/") for (name, _) in cs)
+                    case["browser_holds_a_retry_cookie_afterwards"] = holds_counter
+                    case["retry_cookie_returned_to_the_site_root"] = at_root
+                    if odd and holds_counter and not at_root:
                         key = "c17-retry-cookie-path-not-segment-prefix"
                         case["ingress_path_matched_as_string_prefix"] = odd
+                    causes = sorted({ck.fault_cause(f)[1] for f in faults if ck.fault_cause(f)[1]})
+                    if causes:
+                        case["failure_causes"] = {c: ck.CAUSES.get(c, c) for c in causes}
                     ctx.violation(key, "more than three automatic retry redirects without a terminal error page "
-                                       "(the browser never presents the counter it was just given)", case)
+                                       "(the browser never presents the counter it was just given, or was never given one)", case)
                 since_clear = n307
+                # however requests keep failing - whatever the cause of each failure - a request that fails every time must reach the
+                # terminal error page: the followed chain may not use up its whole fault list (more than the maximum) on redirects
+                if (chain and all(f.startswith("e") for f in faults) and len(faults) > MAX_RETRIES and len(chain) == len(faults)
+                        and chain[-1] == 307 and not it["via"]):
+                    causes = sorted({ck.fault_cause(f)[1] or "" for f in faults})
+                    case["failure_causes"] = {c or "(unspecified)": ck.CAUSES.get(c, c) for c in causes}
+                    ctx.violation("c17-persistent-failure-no-error-page",
+                                  "a request that fails every time (%d times, causes: %s) was answered with an automatic retry redirect every time; "
+                                  "no terminal error page" % (len(faults), ", ".join(c or "unspecified" for c in causes)), case)
+                # which (endpoint, cause) pairs were exercised: the endpoint of each request of the chain follows from the answers
+                ep = it["ep"]
+                for st, f in zip(chain, faults):
+                    cause_sigs.add((ep, ck.fault_cause(f)[1]))
+                    if st == 307:
+                        ep = {"C": "L", "B": "O"}.get(ep, ep)
+                    elif st == 302 and ep == "L" and it["via"]:
+                        ep = "C"
                 # persistent failures must end in a terminal (non-redirect) answer
                 if chain and len(chain) == len(faults) and len(faults) >= 50:
                     ctx.violation("c17-endless-loop", "the redirect chain did not end within 50 requests", case)
                 if chain and chain[-1] == 307 and len(chain) < len(faults):
                     ctx.violation("c17-chain-stops-on-redirect", "chain ended on a redirect", case)
+    ctx.extra["failure_causes_exercised"] = sorted("%s/%s" % (ep, c or "-") for ep, c in cause_sigs if c is not None)
     return len(sigs)
 
 
@@ -157,13 +187,18 @@ def run(ctx):
                 ctx.samples.append({"config": sc.cfg.describe(), "history": [ck.describe_item(sc, it) for it in sc.items],
                                     "impl_and_model": [r.get("chain", r.get("status")) for r in res]})
     ctx.rule = ("retry cookie values: exhaustive over {0,1,2,3,9,-,+,a} up to length 3 + int boundaries + random numerals, x status {401,500,429}; "
-                "chains: failure cause (provider refuses PAR at login, missing login cookie / bad state, provider error at callback, all mixed, random) "
+                "chains: failure cause (provider refuses PAR at login, missing login cookie / bad state, provider error at callback, all mixed, random; "
+                "and per endpoint the CAUSES 5xx for the whole retry budget, undecodable body, endpoint never answering until the client's timeout, request context "
+                "cancelled meanwhile, connection refused - PAR endpoint at login, token endpoint at the callback - and session-store failure plain / with a deadline "
+                "error / with a cancellation - callback, logout, local logout -, persistent, alternating with successes, mixed and random) "
                 "x ingress prefix {'', /app, nested, look-alike /o} x mode {standalone, SSO server} x scheme, counter-reset scenarios; "
                 "rate limit: enabled x logins {0,1,5} x window {1s,5s,0.5s,1.5s} x gaps {0,1ns,w/2,w-1ns,w,w+1ns,1s} with/without session; "
                 "distinct_nontrivial counts distinct status chains per configuration plus distinct (logins, window, expectation, count) states")
     ctx.assumptions += [
-        "failure causes that can be injected through the router: provider refusing the pushed authorization request (login), missing login cookie, bad state, "
-        "provider error at the callback, request on a host without ingress; store failures at logout are not injected",
+        "failure causes injected through the router: provider refusing the pushed authorization request (login), missing login cookie, bad state, "
+        "provider error at the callback, request on a host without ingress; PAR / token endpoint answering 5xx, garbage, nothing at all (client timeout on the "
+        "fake clock) or refusing the connection; request context cancelled while the provider hangs (the response wonderwall writes is taken as delivered); "
+        "session-store operations failing (plain error, deadline error, cancellation) at callback, logout and local logout (in-memory store behind the harness wrapper)",
         "a browser that keeps cookies = net/http/cookiejar semantics; hand-edited negative counters are outside the property (bounded by |n|+3, proved)",
         "the logincount Max-Age is modelled with integer arithmetic on nanoseconds (truncation, or ceiling with code flag ratelimit_ceil) instead of float64 seconds: exact for windows below 2^22 s",
         "Max-Age counts whole seconds: the monitor requires the counter to survive until the window has passed and to be gone once the window rounded up to a whole second has passed; in between (< 1 s) both answers are admissible",
